@@ -270,6 +270,21 @@ class Facts:
         pre = body.path + '::{closure#'
         return [b for b in self.bodies if b.path.startswith(pre)]
 
+    def closure_cone(self, body):
+        """closures written in `body`, in the helpers that were inlined into it, and (recursively) in those closures"""
+        out, todo, seen = [], [body], set()
+        while todo:
+            b = todo.pop()
+            if b.path in seen:
+                continue
+            seen.add(b.path)
+            pres = {b.path} | {l['inlined_from'] for l in b.locals if l.get('inlined_from')}
+            for c in self.bodies:
+                if c.path not in seen and any(c.path.startswith(p_ + '::{closure#') for p_ in pres):
+                    out.append(c)
+                    todo.append(c)
+        return out
+
 
 def extract(root='/repo', features=None, keep=None):
     """Run the driver over `root`; return Facts. Fresh target dir per run (cargo's freshness
